@@ -69,6 +69,8 @@ class Scheduler:
         self.switches = 0
         self.max_steps = INF
         self.gc_every = 0
+        self.gc_interval = 0
+        self.gc_next = 0
         self.gc_count = 0
         self.hung = False
         self.blocked_waits = 0
@@ -175,8 +177,14 @@ class Scheduler:
         self.total_steps += 1
         a.steps += 1
         self.segments[-1][1] += 1
-        if self.gc_every and self.total_steps % self.gc_every == 0:
+        if self.gc_every and self.total_steps >= self.gc_next:
+            # collection points thin out geometrically (every, 3*every, 7*every, ...):
+            # a collection walks everything the run has allocated so far, and a fixed
+            # interval made runs on long inputs quadratic (a 5 x 275 kB history did
+            # not finish in 600 s)
             self.gc_count += 1
+            self.gc_interval *= 2
+            self.gc_next = self.total_steps + self.gc_interval
             gc.collect()
         if self.total_steps > self.max_steps:
             self.hung = True
@@ -350,6 +358,8 @@ class World:
         self.sched.max_steps = int(spec.get("max_steps", 50_000_000))
         if self.gc_mode == "steps":
             self.sched.gc_every = max(1, self.gc_every)
+            self.sched.gc_interval = self.sched.gc_every
+            self.sched.gc_next = self.sched.gc_every
         self.sched.deadline_s = float(spec.get("deadline_s", 300.0))
         self.sched.switch_hook = self.on_switch if spec.get("probes", True) else None
         self.code_cache = {}
